@@ -83,6 +83,21 @@ namespace c09
         static bool eq(const B2 &a, const B2 &b) { return a.payload == b.payload && a.tail == b.tail; }
         static bool is_container() { return true; }
     };
+    // a reflectable type whose default-constructed members are NOT empty: deserialize<T>() starts from such an object
+    struct S4
+    {
+        std::string name = "unnamed";
+        int32_t level = 7;
+        std::string note = "n/a";
+        template <class R> void reflect(R &r) { r & name; r & level; r & note; }
+    };
+    template <> struct Ref<S4>
+    {
+        static S4 gen(kit::Rng &r, GenCfg &c) { S4 s; s.name = Ref<std::string>::gen(r, c); s.level = Ref<int32_t>::gen(r, c); s.note = r.chance(1, 2) ? std::string() : Ref<std::string>::gen(r, c); return s; }
+        static void enc(const S4 &v, std::string &o) { Ref<std::string>::enc(v.name, o); Ref<int32_t>::enc(v.level, o); Ref<std::string>::enc(v.note, o); }
+        static bool eq(const S4 &a, const S4 &b) { return a.name == b.name && a.level == b.level && a.note == b.note; }
+        static bool is_container() { return true; }
+    };
     template <> struct Ref<S1>
     {
         static S1 gen(kit::Rng &r, GenCfg &c) { S1 s; s.a = Ref<int32_t>::gen(r, c); s.b = Ref<double>::gen(r, c); s.c = Ref<std::string>::gen(r, c); return s; }
@@ -219,6 +234,7 @@ namespace c09
         T1(B1, 1, false);
         T1(B2, 1, false);
         T1(std::vector<B1>, 2, true);
+        T1(S4, 1, true);
 #undef T1
         return a;
     }
